@@ -101,6 +101,9 @@ func writes(st sched.Step, name string) []trace.WriteElement {
 
 func TestC16DQueue(t *testing.T) {
 	rapid.Check(t, func(t *rapid.T) {
+		if vstat.OverBudget() {
+			return
+		}
 		vstat.Case()
 		n := rapid.IntRange(1, 4).Draw(t, "consumers")
 		buf := rapid.IntRange(1, 3).Draw(t, "buffer")
@@ -170,6 +173,9 @@ func TestC16DQueue(t *testing.T) {
 
 func TestC16LoadBalancer(t *testing.T) {
 	rapid.Check(t, func(t *rapid.T) {
+		if vstat.OverBudget() {
+			return
+		}
 		vstat.Case()
 		ns := rapid.IntRange(1, 3).Draw(t, "servers")
 		nc := rapid.IntRange(1, 3).Draw(t, "clients")
@@ -237,6 +243,9 @@ func TestC16LoadBalancer(t *testing.T) {
 
 func TestC16Proxy(t *testing.T) {
 	rapid.Check(t, func(t *rapid.T) {
+		if vstat.OverBudget() {
+			return
+		}
 		vstat.Case()
 		ns := rapid.IntRange(1, 3).Draw(t, "servers")
 		nc := rapid.IntRange(1, 2).Draw(t, "clients")
@@ -295,6 +304,9 @@ var _ = tlx.Int
 // TestC16GCounter: the generated gcounter node archetypes over real GCounter values with harness-scheduled merges.
 func TestC16GCounter(t *testing.T) {
 	rapid.Check(t, func(t *rapid.T) {
+		if vstat.OverBudget() {
+			return
+		}
 		vstat.Case()
 		n := rapid.IntRange(1, 5).Draw(t, "nodes")
 		rounds := 0
